@@ -159,6 +159,15 @@ func Scratch(tag string) string {
 	return d
 }
 
+var progressPath string
+
+// Progress records the case being evaluated so that a dying worker leaves a witness.
+func Progress(s string) {
+	if progressPath != "" {
+		os.WriteFile(progressPath, []byte(s), 0644)
+	}
+}
+
 // Silence redirects stdout/stderr of this process to /dev/null (kevo prints a lot).
 // It returns a writer to the original stderr for diagnostics.
 func Silence() *os.File {
@@ -181,6 +190,11 @@ func WorkerMain(id, tier, unit, outPath string, deadlineUnix int64, seed int) {
 		os.Exit(2)
 	}
 	diag := Silence()
+	progressPath = outPath + ".progress"
+	if os.Getenv("VERIF_NO_RLIMIT") == "" {
+		lim := uint64(24) << 30
+		syscall.Setrlimit(syscall.RLIMIT_AS, &syscall.Rlimit{Cur: lim, Max: lim})
+	}
 	env := &Env{Tier: tier, Seed: seed, Thorough: tier == "thorough"}
 	if deadlineUnix > 0 {
 		env.Deadline = time.Unix(deadlineUnix, 0)
@@ -381,7 +395,10 @@ func runWorker(exe, id, tier, unit, out string, deadline time.Time, seed int) *R
 				if err != nil {
 					msg += ": " + err.Error()
 				}
-				return nil, msg + " stderr: " + oneLine(tail(stderr.String(), 1500), 1500)
+				if p, perr := os.ReadFile(out + ".progress"); perr == nil {
+					msg += " while evaluating: " + string(p)
+				}
+				return nil, msg + " stderr: " + oneLine(tail(stderr.String(), 1200), 1200)
 			}
 			var r Result
 			if json.Unmarshal(b, &r) != nil {
@@ -409,7 +426,14 @@ func runWorker(exe, id, tier, unit, out string, deadline time.Time, seed int) *R
 	}
 	res := NewResult()
 	res.Exhaustive = false
-	res.Violate(FP("worker-death", id, unit), "worker process died twice on unit "+unit+": "+msg2, unit, map[string]any{"unit": unit, "kind": "worker-death", "detail": msg2})
+	prog := ""
+	if i := strings.Index(msg2, " while evaluating: "); i >= 0 {
+		prog = msg2[i+19:]
+		if j := strings.Index(prog, " stderr: "); j >= 0 {
+			prog = prog[:j]
+		}
+	}
+	res.Violate(FP("worker-death", id, unit, prog), "worker process died twice on unit "+unit+": "+msg2, unit, map[string]any{"unit": unit, "kind": "worker-death", "case": prog, "detail": msg2})
 	return res
 }
 
